@@ -214,6 +214,22 @@ func cmdCheck(args []string) int {
 	}
 	units = append(units, lemmas...)
 
+	known, err := loadKnown(filepath.Join(*verifDir, "known_findings.txt"))
+	if err != nil {
+		fmt.Fprintln(os.Stderr, "BROKEN:", err)
+		return 2
+	}
+	// obligations recorded as known findings of this property are expected to fail:
+	// only the first solver pass is spent on them (quick tier)
+	eng.knownObl = map[string]bool{}
+	if *tier != "thorough" {
+		for _, k := range known {
+			if k.Property == *prop && k.Status == "known" {
+				eng.knownObl[k.Obligation] = true
+			}
+		}
+	}
+
 	reports := make([]*FuncReport, len(units))
 	var wg sync.WaitGroup
 	sem := make(chan struct{}, 6)
@@ -228,11 +244,6 @@ func cmdCheck(args []string) int {
 	}
 	wg.Wait()
 
-	known, err := loadKnown(filepath.Join(*verifDir, "known_findings.txt"))
-	if err != nil {
-		fmt.Fprintln(os.Stderr, "BROKEN:", err)
-		return 2
-	}
 	return eng.report(*prop, *tier, *verifDir, units, reports, known, loadSecs, start, *noEvidence, *verbose, *funcFilter != "" || *oblFilter != "")
 }
 
